@@ -95,6 +95,15 @@ func checkC15(c *Ctx) {
 			c.decide("PASS-one-saveversion", "SaveChangeSet success return passes SaveVersion", l.ipos(r), passed(r), "passes SaveVersion", "a success return does not pass SaveVersion")
 		}
 	}
+	c.rule("PASS-extract-every-version", "each version of the requested range is diffed against its predecessor", 1)
+	tsc := l.Func("", "*nodeDB.traverseStateChanges")
+	esc0 := l.Func("", "*nodeDB.extractStateChanges")
+	if tsc == nil || esc0 == nil {
+		c.anchorMissing("PASS-extract-every-version", "traverseStateChanges / extractStateChanges")
+	} else {
+		found, ok, _ := loopBodyMustPass(tsc, func(in ssa.Instruction) bool { cc := callCommon(in); return cc != nil && predStatic(esc0)(cc) })
+		c.decide("PASS-extract-every-version", "traverseStateChanges diffs every version", l.pos(tsc.Pos()), found && ok, "every iteration of the version loop calls extractStateChanges", "the version loop can deliver a change set without diffing the two roots (e.g. a shortcut for reference roots): removals that collapse the root are lost")
+	}
 	ea := newErrAnalysis(c, l)
 	esc := l.Func("", "*nodeDB.extractStateChanges")
 	ea.runE3("ERR-E3-iterator", func(fn *ssa.Function) bool {
